@@ -54,7 +54,9 @@ class MarginLoan(base.Loan):
         interest = self._conditions.interest_percentage / Decimal(100) * self.borrowed_amount
         if self._conditions.interest_period:
             time_ellapsed = at - self._created_at
-            interest *= Decimal(time_ellapsed.total_seconds() / self._conditions.interest_period.total_seconds())
+            # Exact ratio. Dividing floats yields values like 2.9999999999999996 that later get truncated.
+            microsecond = datetime.timedelta(microseconds=1)
+            interest *= Decimal(time_ellapsed // microsecond) / Decimal(self._conditions.interest_period // microsecond)
 
         # Currency conversion if interest symbol is different from borrowed symbol.
         if self._conditions.interest_symbol != self.borrowed_symbol:
